@@ -232,6 +232,7 @@ def run(ctx: core.Ctx):
         t = a.split()
         if core.parse_arr(t[1], int) != idx2 or core.parse_arr(t[2], int) != keys2:
             ctx.disagree("R", "to_linspace", dict(x=vals), a, [idx2, keys2])
+    core.acc_dispatch(ctx, ['calidx'])
     ctx.trusted += ["native model driver (Hdc/Model/Discrete.lean)", "pandas / NumPy searchsorted, unique (external)", "harness/props/c09.py oracle (per-group real calls)"]
 
 
